@@ -25,6 +25,7 @@ if os.path.isdir(_deps) and _deps not in sys.path and os.environ.get('SIMNET_NO_
     sys.path.append(_deps)
 import asyncio
 import contextvars
+import gc
 import heapq
 import random
 import struct
@@ -550,6 +551,9 @@ class SimNet:
         except Exception:
             pass
         asyncio.set_event_loop(None)
+        # cancelled coroutines' finally blocks must not run later against the next simulation's runtimes
+        self.tasks = []
+        gc.collect()
 
 
 def parse_frames(stream, handshake_len=0):
